@@ -60,27 +60,38 @@ Proof.
   assert (S1 : started s = true) by (destruct (started s) eqn:E; [reflexivity|destruct (D (or_introl eq_refl)) as (_ & X & _); congruence]).
   assert (S2 : stopping s = false) by (destruct (stopping s) eqn:E; [destruct (D (or_intror eq_refl)) as (_ & X & _); congruence|reflexivity]).
   rewrite K2 in G. rewrite Ea in I.
-  cbn [bf set]. destruct (bf s) as [b|] eqn:Eb.
-  all: set (s1 := set s (started s) (stopping s) false (verif s) (completed s) (complC_closed s) true (Some b) (do_verify s) (held s + pending s) 0 (leaked s) (persisted s) (crashed s)) || set (s1 := set s (started s) (stopping s) false (verif s) (completed s) (complC_closed s) true None (do_verify s) (held s + pending s) 0 (leaked s) (persisted s) (crashed s)).
-  - (* a bitfield is there: no verify request can be pending *)
-    assert (Hdv : do_verify s = false).
+  cbn [bf set]. cbv iota.
+  (* the two shapes of the state after the old bitfield has been dropped *)
+  assert (Hfresh : forall pe dv, dv = do_verify s ->
+     LInv (let s3 := set s true false false false (completed s) (complC_closed s) true (Some po) dv (held s + pending s) 0 (leaked s) pe (crashed s) in
+           let s4 := if all_true po then s3 else reset_completion true s3 in
+           if true && do_verify s4 then do_stop true (set s4 (started s4) (stopping s4) false (verif s4) (completed s4) (complC_closed s4) true (bf s4) false (held s4) (pending s4) (leaked s4) (persisted s4) (crashed s4))
+           else if true then check_completion s4 else s4)).
+  { intros pe dv Edv. cbv zeta. cbv iota. cbn [andb].
+    destruct dv eqn:Ed; destruct (all_true po) eqn:Ep; unfold reset_completion; cbn [do_verify set].
+    - apply linv_stop_started; cbn; rewrite ?S1, ?S2, ?K1 in *; try fin. all: try (intros _; exact Ep).
+    - apply linv_stop_started; cbn; rewrite ?S1, ?S2, ?K1 in *; try fin. all: try (intros X; discriminate).
+    - apply linv_check_completion; cbn; auto. apply linv_running; cbn; rewrite ?S1, ?S2, ?K1 in *; try fin. exists po. split; [reflexivity|]. intros _. exact Ep.
+    - apply linv_check_completion; cbn; auto. apply linv_running; cbn; rewrite ?S1, ?S2, ?K1 in *; try fin. exists po. split; [reflexivity|]. intros X; discriminate. }
+  destruct (bf s) as [b|] eqn:Eb.
+  - assert (Hdv : do_verify s = false).
     { destruct (do_verify s) eqn:E; [|reflexivity]. destruct (M eq_refl) as [_ [X|X]]; congruence. }
-    assert (R1 : LInv s1).
-    { apply linv_running; cbn; rewrite ?S1, ?S2, ?K1 in *; try fin. exists b. split; [reflexivity|]. intros Hc. exact (C Hc). }
-    destruct (negb hm); [apply linv_check_completion; cbn; auto|].
-    destruct (negb he).
-    + destruct (all_true po) eqn:Ep; unfold reset_completion; subst s1; cbn [do_verify set]; rewrite Hdv; cbn [andb].
-      * apply linv_running; cbn; rewrite ?S1, ?S2, ?K1 in *; try fin. exists po. split; [reflexivity|]. intros _. exact Ep.
-      * apply linv_running; cbn; rewrite ?S1, ?S2, ?K1 in *; try fin. exists po. split; [reflexivity|]. intros X; discriminate.
-    + apply linv_start_verifier_w; cbn; rewrite ?S1, ?S2, ?K1 in *; try fin.
-      all: try (intros Hc; exact (C Hc)).
-  - destruct (negb he).
-    + destruct (do_verify s) eqn:Edv; destruct (all_true po) eqn:Ep; unfold reset_completion; subst s1; cbn [do_verify set]; rewrite ?Edv; cbn [andb].
-      * apply linv_stop_started; cbn; rewrite ?S1, ?S2, ?K1 in *; try fin. all: try (intros _; exact Ep).
-      * apply linv_stop_started; cbn; rewrite ?S1, ?S2, ?K1 in *; try fin. all: try (intros X; discriminate).
-      * apply linv_running; cbn; rewrite ?S1, ?S2, ?K1 in *; try fin. exists po. split; [reflexivity|]. intros _. exact Ep.
-      * apply linv_running; cbn; rewrite ?S1, ?S2, ?K1 in *; try fin. exists po. split; [reflexivity|]. intros X; discriminate.
-    + apply linv_start_verifier_w; cbn; rewrite ?S1, ?S2, ?K1 in *; try fin.
+    destruct (negb hm) eqn:Ehm.
+    + apply linv_check_completion; cbn; auto. apply linv_running; cbn; rewrite ?S1, ?S2, ?K1 in *; try fin. exists b. split; [reflexivity|]. intros Hc. exact (C Hc).
+    + apply Bool.negb_false_iff in Ehm. rewrite Ehm. cbn [andb].
+      cbn [started stopping verif completed complC_closed do_verify held pending leaked persisted crashed bf set].
+      rewrite S1, S2, K1. destruct (negb he).
+      * apply (Hfresh (Some po) (do_verify s)). reflexivity.
+      * apply linv_start_verifier_w; cbn; rewrite ?S1, ?S2, ?K1 in *; try fin.
+  - destruct hm; cbn [andb].
+    + cbn [started stopping verif completed complC_closed do_verify held pending leaked persisted crashed bf set].
+      rewrite S1, S2, K1. destruct (negb he).
+      * apply (Hfresh (Some po) (do_verify s)). reflexivity.
+      * apply linv_start_verifier_w; cbn; rewrite ?S1, ?S2, ?K1 in *; try fin.
+    + cbn [started stopping verif completed complC_closed do_verify held pending leaked persisted crashed bf set].
+      rewrite S1, S2, K1. destruct (negb he).
+      * apply (Hfresh (Some po) (do_verify s)). reflexivity.
+      * apply linv_start_verifier_w; cbn; rewrite ?S1, ?S2, ?K1, ?Eb in *; try fin.
 Qed.
 
 Lemma linv_verify_done s : LInv s -> LInv (verify_done true s).
